@@ -844,6 +844,16 @@ pub fn child_panic(w: usize, n: usize, fail: usize, delay_ms: u64, prior: u64) -
         println!("train_bpe in between: {}", r.is_ok());
         let _ = std::fs::remove_dir_all(&dir);
     }
+    // prior = 4: an older pipe that is still alive when the failing one is built and is dropped before it (partly consumed)
+    let mut older = if prior == 4 {
+        let c4 = Ctl::new(Mode::Free, 2, 5, 0.0);
+        let src4 = Src { next: 0, n: 50, ctl: c4.clone() };
+        let mut p4 = src4.pipe(make_pipeline(&c4, None, false), 2);
+        let _ = p4.next();
+        Some(p4)
+    } else {
+        None
+    };
     let ctl = Ctl::new(Mode::Free, w, 1, 0.0);
     let src = Src { next: 0, n, ctl: ctl.clone() };
     let c = ctl.clone();
@@ -858,6 +868,10 @@ pub fn child_panic(w: usize, n: usize, fail: usize, delay_ms: u64, prior: u64) -
     });
     let mut pipe = src.pipe(pipeline, w as u8);
     let mut got = 0;
+    if let Some(p4) = older.take() {
+        drop(p4);
+        println!("older pipe dropped first");
+    }
     if prior == 3 {
         // a later, smaller pipe while this one is alive: the items in flight must stay below the failing one
         // (look-ahead is at most channel + workers), i.e. fail > 2 w + 2 is expected from the caller
